@@ -20,18 +20,18 @@ Print Assumptions C02_lossless.
    capacities of the byte, message and consumer channels and every schedule of producer,
    framer and consumer, executions are finite and end with the consumer holding the lossless
    segmentation, the framer halted and the output channel closed. *)
-Theorem C02_every_schedule : forall t0 (input : list N) cap0 cap1 capc,
+Theorem C02_every_schedule : forall t0 (input : list N) (sync : nat -> bool) cap0 cap1 capc,
   (1 <= cap0)%nat -> (1 <= cap1)%nat -> (1 <= capc)%nat ->
   exists n, forall m c,
-    steps _ (nstep _ _ _ (Pipe.prog N msg (list N) (fun acc b => (acc ++ [b], [])) (frame_flush t0) 1 (fun _ => true))
+    steps _ (nstep _ _ _ (Pipe.prog N msg (list N) (fun acc b => (acc ++ [b], [])) (frame_flush t0) 1 (fun _ => true) sync)
                    Pipe.sender Pipe.receiver (SkDone _ _ _)) m
           (Pipe.init N msg (list N) 1 cap0 cap1 [capc] input []) c ->
     (m <= n)%nat /\
-    (final_config _ _ _ (Pipe.prog N msg (list N) (fun acc b => (acc ++ [b], [])) (frame_flush t0) 1 (fun _ => true))
+    (final_config _ _ _ (Pipe.prog N msg (list N) (fun acc b => (acc ++ [b], [])) (frame_flush t0) 1 (fun _ => true) sync)
                   Pipe.sender Pipe.receiver (SkDone _ _ _) c ->
      concat (map raw (sink_out N msg (list N) c 0)) = input /\
      Forall (fun x => raw x <> []) (sink_out N msg (list N) c 0) /\
-     halted N msg (list N) (fun acc b => (acc ++ [b], [])) (frame_flush t0) 1 (fun _ => true) c 1 /\
+     halted N msg (list N) (fun acc b => (acc ++ [b], [])) (frame_flush t0) 1 (fun _ => true) sync c 1 /\
      closed (nth 1 (chans c) (dchan _)) = true).
 Proof. exact lossless_every_schedule. Qed.
 Print Assumptions C02_every_schedule.
